@@ -206,7 +206,7 @@ def mk_sched(pid, title, text, need):
                                  [{"harness": "tsan_pass", "args": [], "share": 0.2, "env": {"TSAN_OPTIONS": "halt_on_error=1:exitcode=66:report_signal_unsafe=0"}}],
         "level": "model_checking", "engine": "E3",
         "technique": "stateless model checking of the implementation: exhaustive preemption-bounded schedule exploration under a controlled scheduler (iterative context bounding), plus exhaustive trace-state-pruned exploration at critical-section granularity for 4 threads",
-        "rule": "harnesses H1-H7 (2-3 threads, 1-4 operations each: racing first loads of one name, crossing orders on two names, failing loads, fixed/UTC names, loads mixed with lookups on the shared zone, lookups on a pre-loaded zone): every schedule with at most 3 (quick) / 5 (thorough) preemptions (H7: 2 / 3), points at every lock, unlock, atomic load/store, static guard, factory entry/exit and first Read; harnesses H8-* (4 threads, one load each): all interleavings at lock/factory/thread-end granularity, pruned by trace-equivalence state hash; cold-start variants of H1/H4/H5/H5b/H5c: one fresh process per execution so that the function-local statics (UTC impl, both mutexes) are initialised under the explored schedule, bound 2 (3) for H1/H5/H5c and 1 (2) for the three-thread H4/H5b; every complete execution is judged; distinct_nontrivial = number of (harness, preemption count) classes and distinct observation vectors seen",
+        "rule": "harnesses H1-H9 (2-3 threads, 1-4 operations each: racing first loads of one name, crossing orders on two names, failing loads, fixed/UTC names, names differing by a file: prefix, local_time_zone() with $TZ naming a served zone racing itself and a direct load, loads mixed with lookups on the shared zone, lookups on a pre-loaded zone): every schedule with at most 3 (quick) / 5 (thorough) preemptions (H7: 2 / 3), points at every lock, unlock, atomic load/store, static guard, factory entry/exit and first Read; harnesses H8-* (4 threads, one load each): all interleavings at lock/factory/thread-end granularity, pruned by trace-equivalence state hash; cold-start variants of H1/H4/H5/H5b/H5c: one fresh process per execution so that the function-local statics (UTC impl, both mutexes) are initialised under the explored schedule, bound 2 (3) for H1/H5/H5c and 1 (2) for the three-thread H4/H5b; every complete execution is judged; distinct_nontrivial = number of (harness, preemption count) classes and distinct observation vectors seen",
         "design_ref": "DESIGN.md 3/" + pid, "text": text, "level_note": E3_NOTE,
         "assumptions": ["sequential consistency at scheduling-point granularity (relaxed atomics: two independent words, see DESIGN.md C13 memory-order scope)", "warm harnesses start every execution from an emptied name cache (ClearTimeZoneMapTestOnly) with initialised function-local statics; cold harnesses run every execution in a fresh process"],
         "vacuity": vac, "budget": {"quick": 300, "thorough": 3000},
